@@ -43,9 +43,11 @@ func main() {
 	shard := fs.Int("shard", 0, "shard index (mixed into the PRNG seed)")
 	in := fs.String("in", "", "input case file")
 	out := fs.String("out", "", "output file")
+	long := fs.Bool("long", false, "also run the probes that need tens of seconds of real time")
 	epoch := fs.String("epoch", "", "past: substitute clock in the year 2000 (circ family)")
 	_ = fs.Parse(os.Args[3:])
 	hc.SetEpoch(*epoch)
+	hc.Long = *long
 	switch os.Args[2] {
 	case "gen":
 		f := &hc.File{Family: os.Args[1], Seed: *seed, Tier: *tier, Dist: map[string]int{}, Extra: map[string]string{"epoch": *epoch}}
